@@ -25,6 +25,10 @@
              (7.20) nothing accepted yet and the exported value is
              time.Time{}.UnixNano(); tag 13 (7.12) the exported value misses
              only notifications whose first update path has no Elem.
+             tag 14 (KF-C15-3): a leaf-count law (tags 2, 3, exported leaf) fails
+             on a target whose history since its last Reset contains a delete
+             addressed to meta/<int entry> (gnmiRemove -> ResetEntry zeroes the
+             counter), or the accounting law fails on that very call.
 
     [CLat]: a sequence of Compute / UpdateReset / UpdateLast calls on one real
     [latency.Latency] with the stats each update wrote per window.  Tag 1:
@@ -59,8 +63,7 @@ Definition kget (ks : list (string * kt)) (t : string) : kt :=
 
 (** ** tag 2 / 11 and 3 *)
 
-Definition kp_leafcount (ks : list (string * kt)) (ob : mobs) : list N :=
-  flat_map (fun kt =>
+Definition kp_leafcount_one (ks : list (string * kt)) (kt : string * tobs) : list N :=
     match to_dump (snd kt), to_meta (snd kt) with
     | Some d, Some m =>
         let real := Z.of_nat (List.length (non_meta d)) in
@@ -71,7 +74,51 @@ Definition kp_leafcount (ks : list (string * kt)) (ob : mobs) : list N :=
               then [11%N] else [2%N]) ++
         (if Z.eqb lc (geti m md_add_count - geti m md_del_count) then [] else [3%N])
     | _, _ => []
-    end) (o_tgts ob).
+    end.
+
+Definition kp_leafcount (ks : list (string * kt)) (ob : mobs) : list N :=
+  flat_map (kp_leafcount_one ks) (o_tgts ob).
+
+(** ** known finding KF-C15-3 (tag 14): counters zeroed by a delete of their
+    own metadata leaf.  [gnmiRemove] calls [metadata.ResetEntry(path[1])] for
+    every delete whose index path is meta/<name>/...; for an int entry this
+    zeroes a counter the cache maintains incrementally.  The class: the target's
+    history since its last Reset / Add / Remove contains a non-atomic
+    notification with a delete whose index path is meta/<registered int
+    entry>[/...] (deletes of "meta", "meta/*" or "*" reset nothing and are NOT in
+    the class).  Inside the class a failure of the leaf-count laws (tags 2, 3,
+    exported leaf) of THAT target, and of the accounting law (tag 4) of the
+    resetting call itself, is reported as tag 14. *)
+Definition is_counter_reset_path (p : path) : bool :=
+  match p with
+  | p0 :: k :: _ => String.eqb p0 "meta" && name_in k md_int_names
+  | _ => false
+  end.
+
+Definition resets_counter (n : notif) : bool :=
+  negb (n_atomic n) &&
+  existsb (fun d => match join_prefix_and_path (gp_of_opt (n_prefix n)) d with
+                    | Ok p => is_counter_reset_path p
+                    | _ => false
+                    end) (n_del n).
+
+Definition in_cr (t : string) (cr : list string) : bool := existsb (String.eqb t) cr.
+
+Definition cr_next (cr : list string) (o : mop) : list string :=
+  match o with
+  | MReset _ t | MAdd t | MRemove _ t => filter (fun x => negb (String.eqb t x)) cr
+  | MUpd _ n =>
+      match n_prefix n with
+      | Some pr => if resets_counter n then gp_target pr :: cr else cr
+      | None => cr
+      end
+  | _ => cr
+  end.
+
+Definition kf3 (b : bool) (l : list N) : list N := if b then map (fun _ => 14%N) l else l.
+
+Definition kp_leafcount_cr (ks : list (string * kt)) (cr : list string) (ob : mobs) : list N :=
+  flat_map (fun kt => kf3 (in_cr (fst kt) cr) (kp_leafcount_one ks kt)) (o_tgts ob).
 
 (** ** tag 4 *)
 
@@ -287,29 +334,42 @@ Definition kp_exported (o : mop) (ob : mobs) : bool :=
   | _ => true
   end.
 
-Definition kp_cache_step (prev : list (string * tobs)) (ks : list (string * kt)) (o : mop) (ob : mobs)
-  : list N :=
+Definition kp_exported_cr (cr : list string) (o : mop) (ob : mobs) : list N :=
+  match o with
+  | MUpdateMeta _ =>
+      flat_map (fun kt => if kp_exported_one (snd kt) then [] else kf3 (in_cr (fst kt) cr) [2%N]) (o_tgts ob)
+  | MReset _ t => match assoc t (o_tgts ob) with
+                  | Some a => if kp_exported_one a then [] else [2%N]
+                  | None => []
+                  end
+  | _ => []
+  end.
+
+Definition kp_cache_step (prev : list (string * tobs)) (ks : list (string * kt)) (cr : list string)
+  (o : mop) (ob : mobs) : list N :=
   let ks' := kt_next prev ks o ob in
-  kp_leafcount ks' ob ++
-  (if kp_exported o ob then [] else [2%N]) ++
-  (if kp_accounting prev o ob then [] else [4%N]) ++
+  let cr' := cr_next cr o in
+  kp_leafcount_cr ks' cr' ob ++
+  kp_exported_cr cr' o ob ++
+  (if kp_accounting prev o ob then []
+   else kf3 (match o with MUpd _ n => resets_counter n | _ => false end) [4%N]) ++
   kp_latest ks' o ob.
 
 Fixpoint check_cache_from (i : nat) (s : mstate) (prev : list (string * tobs)) (ks : list (string * kt))
-  (l : list (mop * mobs)) : list (nat * N) :=
+  (cr : list string) (l : list (mop * mobs)) : list (nat * N) :=
   match l with
   | [] => []
   | (o, ob) :: l' =>
       let '(s', r, f, outs) := mstep s o in
       let v1 := if corr_step o s' r f outs ob then [] else [(i, 1%N)] in
-      let vk := map (fun t => (i, t)) (kp_cache_step prev ks o ob) in
-      v1 ++ vk ++ check_cache_from (S i) s' (o_tgts ob) (kt_next prev ks o ob) l'
+      let vk := map (fun t => (i, t)) (kp_cache_step prev ks cr o ob) in
+      v1 ++ vk ++ check_cache_from (S i) s' (o_tgts ob) (kt_next prev ks o ob) (cr_next cr o) l'
   end.
 
 Definition check_cache (cs : mcase) : list (nat * N) :=
   let '(cfg, names, init, l) := cs in
   let s := minit cfg names in
-  check_init s init ++ check_cache_from 0 s init [] l.
+  check_init s init ++ check_cache_from 0 s init [] [] l.
 
 (** * Latency part *)
 
